@@ -25,11 +25,12 @@
 From Gnmi Require Import Base.Prelude CTree.CTreeModel.
 Open Scope Z_scope.
 
-(** * Switches for the two defects that the patches in /verif/fixes repair
-      (one line each).  Both patches are committed in /repo (3cf3caf, d054399),
-      so both switches are off; setting one to [true] gives the model of the
-      code before its fix (used on scratch copies to confirm that the witnesses
-      in corpus/C01 fail there). *)
+(** * Switches for the defects that the patches in /verif/fixes repair (one line
+      each; the third one, [defect_C01_3], is further down next to
+      [to_delete_gen]).  All three patches are committed in /repo (3cf3caf,
+      d054399, 6b65ac8), so the switches are off; setting one to [true] gives the
+      model of the code before its fix (used on scratch copies to confirm that
+      the witnesses in corpus/C01 fail there). *)
 
 (* DEFECT C01_1 (fixes/C01_1_collector_registers_targets_in_cache.diff, fixed
    by 3cf3caf): gnmi_collector never called cache.Add for its configured
@@ -543,8 +544,22 @@ Definition cache_update_one (w : wstate) (r : leafrec) : wstate :=
       end
   end end.
 
-(** cache.toDeleteNotification *)
-Definition to_delete (old : leafrec) (ts : Z) : delrec :=
+(* DEFECT C01_3 (fixes/C01_3_mixed_encoding_delete.diff, fixed by 6b65ac8): when
+   prefix and path of a stored leaf used different encodings (one elem, the other
+   the deprecated element), cache.toDeleteNotification built the delete path
+   from the elem parts only and dropped the element part.  [true] = the code
+   before the fix; [false] = the element side is converted to elems (see
+   [path_elems]). *)
+Definition defect_C01_3 : bool := false.
+
+Definition path_elems (g : gpath) : list pelem :=
+  match g_elem g with
+  | [] => map (fun n => {| e_name := n; e_keys := [] |}) (g_element g)
+  | es => es
+  end.
+
+(** cache.toDeleteNotification ([dropping] = the behaviour of DEFECT C01_3) *)
+Definition to_delete_gen (dropping : bool) (old : leafrec) (ts : Z) : delrec :=
   let pre := lr_prefix old in
   let p := lr_path old in
   {| d_ts := ts;
@@ -555,9 +570,13 @@ Definition to_delete (old : leafrec) (ts : Z) : delrec :=
        match g_elem pre, g_elem p with
        | [], [] => {| g_origin := ""; g_target := ""; g_elem := [];
                       g_element := g_element pre ++ g_element p |}
-       | _, _ => {| g_origin := ""; g_target := ""; g_elem := g_elem pre ++ g_elem p;
+       | _, _ => {| g_origin := ""; g_target := "";
+                    g_elem := if dropping then g_elem pre ++ g_elem p
+                              else path_elems pre ++ path_elems p;
                     g_element := [] |}
        end |}.
+
+Definition to_delete : leafrec -> Z -> delrec := to_delete_gen defect_C01_3.
 
 (** Target.gnmiRemove for one delete followed by t.client for every removed leaf *)
 Definition cache_delete_one (ts : Z) (pre : gpath) (w : wstate) (d : gpath) : wstate :=
